@@ -210,11 +210,15 @@ def compile_repo_source(work, src, defines, export_local, cflags=()):
         return out
 
 
-def list_fp_sites(gb):
+def list_fp_sites(gb, want_functions=False):
     rc, o, e, to, _ = run(["goto-instrument", "--show-goto-functions", gb], timeout=300)
+    text = o.decode(errors="replace")
     sites = {}
-    for m in re.finditer(r"ASSIGN (\S+\.function_pointer_call\.\d+) := (.*)", o.decode(errors="replace")):
+    for m in re.finditer(r"ASSIGN (\S+\.function_pointer_call\.\d+) := (.*)", text):
         sites[m.group(1)] = m.group(2).strip()
+    if want_functions:
+        funcs = set(re.findall(r"^\S+ /\* (\S+) \*/$", text, flags=re.M))
+        return sites, funcs
     return sites
 
 
@@ -294,12 +298,16 @@ def build_job(work, job, variant_defs, tag):
         rc, o, e, to, _ = run(["goto-instrument", "--function-pointer-restrictions-file", ej, cur, lab], timeout=300)
         if rc != 0:
             raise BuildError("labelling failed: " + e.decode(errors="replace")[-2000:])
-        sites = list_fp_sites(lab)
+        sites, funcs = list_fp_sites(lab, want_functions=True)
         restr = {}
         for site, expr in sites.items():
             for rx, targets in rules:
                 if re.search(rx, expr) or re.search(rx, site):
-                    restr[site] = list(targets)
+                    # a target that does not exist in this tree (e.g. a destructor added by a later fix) is
+                    # dropped: the restricted site still asserts "pointer is one of the remaining targets"
+                    tg = [t for t in targets if t in funcs]
+                    if tg:
+                        restr[site] = tg
                     break
         restr_used = {s: {"expr": sites[s], "targets": t} for s, t in restr.items()}
         if restr:
